@@ -6,6 +6,7 @@ import (
 	"go/printer"
 	"go/token"
 	"go/types"
+	"golang.org/x/tools/go/ssa"
 	"strconv"
 	"strings"
 
@@ -265,3 +266,30 @@ func uniq(s []string) []string {
 }
 
 type packagesPackage = packages.Package
+
+// ssa aliases used by rules that only need a few instruction types
+type (
+	ssaValue     = ssa.Value
+	ssaStore     = ssa.Store
+	ssaMapUpdate = ssa.MapUpdate
+)
+
+// rootGlobal: the package-level variable an address is rooted at (through field / index addressing and loads of pointers held in globals).
+func rootGlobal(v ssa.Value, depth int) *ssa.Global {
+	if depth > 6 {
+		return nil
+	}
+	switch x := v.(type) {
+	case *ssa.Global:
+		return x
+	case *ssa.FieldAddr:
+		return rootGlobal(x.X, depth+1)
+	case *ssa.IndexAddr:
+		return rootGlobal(x.X, depth+1)
+	case *ssa.UnOp:
+		return rootGlobal(x.X, depth+1)
+	case *ssa.Field:
+		return rootGlobal(x.X, depth+1)
+	}
+	return nil
+}
